@@ -11,7 +11,7 @@ Workload (seeded, JSON-able cases):
             of the BIOGEME methods executed by the call, and SIGKILL delivered by strace on
             entering every openat/write/close/rename/... system call of the call; each distinct
             file state found is then handed to a fresh estimate();
-  directed  deterministic reproductions (run in both tiers).
+  directed  deterministic regression cases of the five repaired defects + probes (run in both tiers).
 Monitors: class-level wrappers around calculate_likelihood_and_derivatives / calculate_likelihood /
 optimize / estimate recording the point, the returned value, gradient finiteness and the bytes of
 __<model>.iter before and after every call. Oracle: biomon/oracle/c15_oracle.py (independent reader
@@ -104,6 +104,32 @@ def _read(path):
             return f.read(1 << 23)
     except FileNotFoundError:
         return None
+
+
+def _siblings(path):
+    """other files the writer left next to the iteration file (e.g. '<file>.tmp' of a stopped process)"""
+    out = []
+    try:
+        names = sorted(os.listdir('.'))
+    except OSError:
+        return ()
+    for n in names:
+        if n != path and n.startswith(path) and os.path.isfile(n):
+            out.append((n, _read(n)))
+    return tuple(out)
+
+
+def _restore_siblings(path, before):
+    keep = dict(before)
+    for n, _ in _siblings(path):
+        if n not in keep:
+            try:
+                os.remove(n)
+            except OSError:
+                pass
+    for n, c in before:
+        if _read(n) != c:
+            _restore(n, c)
 
 
 def _restore(path, content):
@@ -460,9 +486,11 @@ class Session:
         returns the file states found (judged once the call itself has been made)."""
         found = []
         rec = self.rec
+        sib0 = _siblings(self.path)
         if 'line' in plan or 'line-all' in plan:
             how, code, total = self._run_stopped_child(call, lambda: _arm_failpoint(10 ** 9), report_count=True)
             _restore(self.path, pre)
+            _restore_siblings(self.path, sib0)
             if total is None:
                 rec.inconc(f'failpoint counting child ended with {how} {code}')
                 total = 0
@@ -479,10 +507,11 @@ class Session:
             for j in points:
                 how, code, _ = self._run_stopped_child(call, lambda: _arm_failpoint(j))
                 if how == 'exit' and code == 137:
-                    found.append({'by': 'line', 'at': j, 'content': _read(self.path)})
+                    found.append({'by': 'line', 'at': j, 'content': _read(self.path), 'siblings': _siblings(self.path)})
                 else:
                     rec.inconc(f'failpoint child {j}/{total} ended with {how} {code}')
                 _restore(self.path, pre)
+                _restore_siblings(self.path, sib0)
             rec.c('line_stop_points', len([f for f in found if f['by'] == 'line']))
         if 'strace' in plan:
             for sc in SYSCALLS:
@@ -494,12 +523,15 @@ class Session:
                         if not (how == 'exit' and code == 99):
                             break
                         _restore(self.path, pre)
+                        _restore_siblings(self.path, sib0)
                         rec.c('strace_attach_retried')
                     if how == 'signal' and code == 9:
-                        found.append({'by': 'syscall', 'at': f'{sc}#{n}', 'content': _read(self.path)})
+                        found.append({'by': 'syscall', 'at': f'{sc}#{n}', 'content': _read(self.path), 'siblings': _siblings(self.path)})
                         _restore(self.path, pre)
+                        _restore_siblings(self.path, sib0)
                         continue
                     _restore(self.path, pre)
+                    _restore_siblings(self.path, sib0)
                     if how == 'exit' and code == 99:
                         rec.c('strace_attach_failed')
                     elif not (how == 'exit' and code in (17, 18)):
@@ -546,7 +578,10 @@ class Session:
             rec.c(f'crash_points_{fnd["by"]}')
             rec.key([self.label, stable_hash(self.spec), pending['k'], fnd['by'], fnd['at']])
             self._report_stop_state(viol, info, entry, pending['k'], fnd['by'], fnd['at'], fnd['content'])
-            self.crash_results.append({'k': pending['k'], 'content': fnd['content'], 'state': info['state'], 'by': fnd['by'], 'at': fnd['at']})
+            self.crash_results.append({'k': pending['k'], 'content': fnd['content'], 'siblings': fnd.get('siblings', ()), 'state': info['state'],
+                                       'by': fnd['by'], 'at': fnd['at']})
+            if fnd.get('siblings'):
+                rec.c('crash_states_with_leftover_temporary_file')
             if fnd['by'] == 'line':
                 # the snapshot monitor must have seen the same thing at the same statement boundary
                 seen = None
@@ -581,7 +616,7 @@ def _make_biogeme(spec, algo=None, max_iter=None):
     return bg
 
 
-def _restart_probe(sess: Session, content, algo, max_iter, timeout=120):
+def _restart_probe(sess: Session, content, algo, max_iter, timeout=120, siblings=()):
     """A later estimation of the same model, new objects, in a forked process and a fresh
     directory holding exactly `content` as iteration file. Returns what the wrappers saw."""
     from ..worker import run_forked
@@ -594,9 +629,15 @@ def _restart_probe(sess: Session, content, algo, max_iter, timeout=120):
         if content is not None:
             with open(sess.path, 'wb') as f:
                 f.write(content)
-        s2 = Session(Rec(None), spec, 'restart')
+        for n, c in siblings:  # what the stopped process left next to the file
+            if c is not None:
+                with open(n, 'wb') as f:
+                    f.write(c)
+        # the later estimation is monitored like any other run (file after every call, every statement boundary)
+        rec2 = Rec(None)
+        s2 = Session(rec2, spec, 'later estimation')
         MON.ctx = s2
-        MON.mode = 'restart'
+        MON.mode = 'observe'
         out = {'exc': None, 'phase': None}
         try:
             bg = _make_biogeme(spec, algo, max_iter)
@@ -609,7 +650,14 @@ def _restart_probe(sess: Session, content, algo, max_iter, timeout=120):
         out['first'] = None if fe is None else {'kind': fe['kind'], 'x': {n: v.hex() for n, v in fe['x'].items()}, 'f': fe['f']}
         out['optimize_start'] = None if s2.optimize_start is None else {n: v.hex() for n, v in s2.optimize_start.items()}
         after = _read(sess.path)
-        out['file_after'] = None if after is None else after.decode('utf-8', 'replace')[:100000]
+        from ..oracle import c15_oracle as orc
+
+        out['file_after_shape'] = orc.parse_iter(after, s2.names)['shape']
+        MON.mode = 'off'
+        out['viol'] = [[v['mech'], v['msg'][:600]] for v in rec2.viol[:8]]
+        out['n'] = rec2.n
+        out['derivs'] = rec2.cov.get('derivative_evaluations', 0)
+        out['boundaries'] = rec2.cov.get('statement_boundaries_observed', 0)
         return out
 
     return run_forked(child, None, timeout)
@@ -633,6 +681,12 @@ def judge_restart(sess: Session, content, res, original_start_f, context: str):
     expected = dict(gen.default_start(sess.spec))
     if P['ok']:
         expected.update(P['values'])
+    rec.ev(int(res.get('n') or 0))
+    rec.c('later_estimation_derivative_evaluations_monitored', int(res.get('derivs') or 0))
+    rec.c('statement_boundaries_observed', int(res.get('boundaries') or 0))
+    for mech, msg in res.get('viol') or []:
+        sess.viol(mech, f'[{context}; in the later estimation] {msg}', context=context,
+                  file=None if content is None else content[:300].decode('utf-8', 'replace'))
     first = res.get('first')
     names_eq = [n for n in sess.names if '=' in n]
     names_ws = [n for n in sess.names if n != n.strip()]
@@ -687,6 +741,12 @@ def judge_restart(sess: Session, content, res, original_start_f, context: str):
             rec.c('restart_optimiser_failed_after_start_on_hostile_values')
     else:
         rec.c('restart_estimations_completed')
+        # the later estimation saves its own iterations: what it leaves must be sound as well
+        rec.ev()
+        shape = res.get('file_after_shape')
+        if shape != 'complete':
+            sess.viol(f'C15/iterfile-malformed-after-later-estimation-{shape}',
+                      f'[{context}] the later estimation completed and left an iteration file that is not one complete line per parameter: {shape}', **wit)
     return 'ok'
 
 
@@ -694,10 +754,13 @@ def _restarts_for_contents(sess, contents, algo, original_start_f, context, max_
     """one probe per distinct file content"""
     seen = {}
     for c in contents:
-        key = c
+        sib = ()
+        if isinstance(c, tuple):
+            c, sib = c
+        key = (c, sib)
         if key in seen:
             continue
-        res = _restart_probe(sess, c, algo, max_iter)
+        res = _restart_probe(sess, c, algo, max_iter, siblings=sib)
         seen[key] = judge_restart(sess, c, res, original_start_f, context)
     return seen
 
@@ -828,7 +891,7 @@ def run_crash(case, rec, spec=None, steps=None, scaled_mode='never', plan_kinds=
     # restart from every distinct state a stopped process left behind
     contents = []
     for cr in sess.crash_results:
-        contents.append(cr['content'])
+        contents.append((cr['content'], cr.get('siblings', ())))
     out = _restarts_for_contents(sess, contents, 'simple_bounds', _first_candidate_f(sess), 'after process stopped inside an evaluation')
     rec.c('distinct_crash_file_states_restarted', len(out))
     rec.sample({'model_name': spec['model_name'], 'n_parameters': len(spec['params']), 'targets': sorted(targets),
@@ -946,13 +1009,16 @@ def run_crash_optim(case, rec):
     for c in sess.calls:
         if c['k'] in sess.crash_plan:
             rec.c('crash_target_kind_' + c['kind'])
-    out = _restarts_for_contents(sess, [cr['content'] for cr in sess.crash_results], algo, start1,
+    out = _restarts_for_contents(sess, [(cr['content'], cr.get('siblings', ())) for cr in sess.crash_results], algo, start1,
                                  f'after process stopped inside an evaluation of estimate({algo})', max_iter=20)
     rec.c('distinct_crash_file_states_restarted', len(out))
     return sess
 
 
 # -- directed, deterministic cases (both tiers) ---------------------------------
+# The first five reproduced defects of the tree as found (findings/C15.md); they were repaired in /repo
+# (best-so-far marker updated + NaN guard, write to <file>.tmp then os.replace, loader splitting on the
+# last ' = ') and now are regression cases that must HOLD: any firing is an unlisted violation.
 def _simple_spec(names, model='directed', inits=None, cs=None, logp=None):
     params = []
     for i, n in enumerate(names):
